@@ -88,7 +88,7 @@ def build(name, profile, cfg):
 
 
 def ser_groups(t):
-    return [sorted(s) for s in t if len(s) > 0]
+    return [sorted(str(c) for c in s) for s in t if len(s) > 0]
 
 
 def ser_state(st):
@@ -97,9 +97,9 @@ def ser_state(st):
         "elected": ser_groups(st.elected),
         "eliminated": ser_groups(st.eliminated),
         "remaining": ser_groups(st.remaining),
-        "scores": {c: C.enc(v) if not isinstance(v, float) else {"f": v} for c, v in sorted(st.scores.items())},
+        "scores": {str(c): C.enc(v) if not isinstance(v, float) else {"f": v} for c, v in sorted(st.scores.items())},
         "tiebreaks": sorted(
-            [[sorted(k), [sorted(s) for s in v]] for k, v in st.tiebreaks.items()]
+            [[sorted(str(c) for c in k), [sorted(str(c) for c in s) for s in v]] for k, v in st.tiebreaks.items()]
         ),
     }
 
@@ -110,6 +110,7 @@ class Result:
         self.exc = None  # exception object
         self.exc_type = None
         self.frame = None
+        self.frames = []  # names of all votekit functions on the traceback
         self.states = None
         self.draws = 0
         self.log = []
@@ -164,6 +165,11 @@ def run(name, profile, cfg, rng=None, record_steps=False, bound=None):
                 res.exc = exc
                 res.exc_type = type(exc).__name__
                 res.frame = votekit_frame(exc)
+                tb = exc.__traceback__
+                while tb is not None:
+                    if "/votekit/" in tb.tb_frame.f_code.co_filename:
+                        res.frames.append(tb.tb_frame.f_code.co_name)
+                    tb = tb.tb_next
     finally:
         if own:
             cls._run_step = orig
